@@ -109,7 +109,7 @@ class Shadow:
     def mk(self, p, K, name, typ, extra='', ok=True, cls=None, nametok=None):
         k = len(self.e)
         tok = nametok if nametok is not None else hx(name)
-        self.e.append({'K': K, 'p': p, 'name': name, 'alive': ok, 'ok': ok})
+        self.e.append({'K': K, 'p': p, 'name': name, 'alive': ok, 'ok': ok, 'extra': extra})
         self.emit(('mk %s %s %s %s %s' % (self.ptok(p), K, tok, hx(typ), extra)).strip(), cls)
         return k
 
@@ -571,7 +571,8 @@ def malformed_step(sh):
     """emit one call that the API must reject (with the label of its class); returns False when the state
     offers no opportunity for the class drawn"""
     rnd = sh.rnd
-    c = rnd.choice(['create-name', 'create-name', 'create-dup', 'create-dup', 'create-type', 'array', 'frame', 'frame', 'mtag', 'mtag',
+    c = rnd.choice(['create-name', 'create-name', 'create-dup', 'create-dup', 'create-type', 'array', 'array', 'frame', 'frame', 'frame', 'mtag', 'mtag',
+                    'sdata', 'sdata', 'adata', 'adata', 'adata',
                     'prop', 'prop', 'feature', 'ladd', 'ladd', 'ladds', 'lset', 'lset', 'meta', 'meta', 'link', 'pos', 'ext', 'ext',
                     'data', 'type', 'def', 'units', 'extent', 'values', 'values', 'index', 'lindex'])
     if c in ('create-name', 'create-dup', 'create-type'):
@@ -605,18 +606,69 @@ def malformed_step(sh):
         if not bs:
             return False
         b = rnd.choice(bs)
-        if rnd.random() < 0.5:
+        q = rnd.random()
+        if q < 0.35:
             sh.mk(b, 'A', sh.pick_new_name(b, 'A', 0.1), 't', '%s 1 3' % rnd.choice(['Nothing', 'Char']), ok=False, cls='unsupported-dtype')
-        else:
+        elif q < 0.6:
             sh.mk(b, 'A', sh.pick_new_name(b, 'A', 0.1), 't', 'Double 0', ok=False, cls='rank-0')
+        else:
+            # more dimensions than HDF5 supports (H5S_MAX_RANK = 32).  Ranks 10..32 are left out: whether the chunking
+            # nix guesses for them is accepted by HDF5 depends on overflow in the guess (16, 30, 31, 32 x extent 1 are
+            # refused, 24 is not) and is outside this model; notes/proposed-fixes/C08-4-createDataArray-rank-above-32.patch
+            r = rnd.choice([33, 33, 34, 40, 64])
+            sh.mk(b, 'A', sh.pick_new_name(b, 'A', 0.1), 't', '%s %d %s' % (rnd.choice(['Double', 'Int32', 'String']), r,
+                  ' '.join(str(rnd.choice([1, 1, 2])) for _ in range(r))), ok=False, cls='rank-above-32')
+        return True
+    if c in ('sdata', 'adata'):
+        # whole-array setData(value) / appendData with elements that cannot be converted into the array's element type
+        # (String against numeric in both directions, anything but Bool into Bool), on a fresh array that has data to lose
+        bs = sh.live('B')
+        if not bs:
+            return False
+        b = rnd.choice(bs)
+        ft = rnd.choice(['Double', 'Int32', 'UInt8', 'Float', 'Int64', 'String', 'String', 'Bool'])
+        rank = 1 if c == 'sdata' else rnd.choice([1, 1, 2])
+        dims = [rnd.choice([1, 2, 3]) for _ in range(rank)]
+        a = sh.mk(b, 'A', sh.pick_new_name(b, 'A', 0.0), 't', '%s %d %s' % (ft, rank, ' '.join(map(str, dims))))
+        numeric = ['Double', 'Int32'] if c == 'adata' else ['Double', 'Float', 'Int32', 'Int64', 'UInt8']
+        good = ['String'] if ft == 'String' else (['Bool'] if ft == 'Bool' else numeric + (['Bool'] if c == 'adata' else []))
+        bad = numeric if ft in ('String', 'Bool') else ['String']
+        if ft == 'Bool':
+            bad = bad + ['String']
+        if ft == 'String' and c == 'adata':
+            bad = bad + ['Bool']
+        if c == 'sdata':
+            if ft != 'Bool' and rnd.random() < 0.4:
+                sh.emit('sdata %d %s %d' % (a, rnd.choice(good), rnd.choice([1, 4, 5])))          # accepted: resizes
+            sh.emit('sdata %d %s %d' % (a, rnd.choice(bad), rnd.choice([1, 4, 5, 7])), 'setdata-element-type')
+        else:
+            axis = rnd.randrange(rank)
+            cnt = list(dims)
+            cnt[axis] = rnd.choice([1, 2, 3])
+            if rnd.random() < 0.4:
+                sh.emit('adata %d %s %d %d %s' % (a, rnd.choice(good), axis, rank, ' '.join(map(str, cnt))))   # accepted: grows
+                dims[axis] += cnt[axis]
+            q = rnd.random()
+            if q < 0.7:
+                sh.emit('adata %d %s %d %d %s' % (a, rnd.choice(bad), axis, rank, ' '.join(map(str, cnt))), 'append-element-type')
+            elif q < 0.8:
+                sh.emit('adata %d %s %d %d %s' % (a, rnd.choice(good), rank + rnd.choice([0, 1]), rank, ' '.join(map(str, cnt))), 'append-axis')
+            elif q < 0.9:
+                sh.emit('adata %d %s %d %d %s' % (a, rnd.choice(good), axis, rank + 1, ' '.join(map(str, cnt + [1]))), 'append-rank')
+            elif rank > 1:
+                other = (axis + 1) % rank
+                cnt[other] += 1
+                sh.emit('adata %d %s %d %d %s' % (a, rnd.choice(good + bad), axis, rank, ' '.join(map(str, cnt))), 'append-shape')
         return True
     if c == 'frame':
         bs = sh.live('B')
         if not bs:
             return False
         b = rnd.choice(bs)
-        q = rnd.choice(['empty-cols', 'col-type', 'col-nothing', 'dup-col'])
+        q = rnd.choice(['empty-cols', 'col-type', 'col-nothing', 'dup-col', 'col-noname', 'col-noname'])
         extra = {'empty-cols': '0',
+                 'col-noname': rnd.choice(['1 s: Double s:', '2 %s Int32 s: s: Double s:6d56' % hx('c0'), '3 %s Int32 s: %s String s: s: Double s:' % (hx('c0'), hx('c1')),
+                                           '2 s: Int32 s: %s Double s:' % hx('c1')]),
                  'col-type': '2 %s Int32 s: %s %s s:' % (hx('c0'), hx('c1'), rnd.choice(['Int8', 'Float', 'Char', 'UInt16'])),
                  'col-nothing': '2 %s Int32 s: %s Nothing s:' % (hx('c0'), hx('c1')),
                  'dup-col': '2 %s Int32 s: %s Double s:' % (hx('c0'), hx('c0'))}[q]
